@@ -238,6 +238,21 @@ class Case:
                     if ent is not None and ent.metadata is not None:
                         hs.append(("metadata_link:" + kind, ent.metadata))
                         break
+            # handles reached through the link of ANOTHER section
+            for lid, tid in getattr(self, "seclinks", {}).items():
+                if tid == n.id:
+                    ln = [m for m in secs if m.id == lid]
+                    if ln:
+                        try:
+                            lh = self.sec_handles(f, ln[0])[0][1].link
+                        except Exception as e:
+                            self.viol("Section.link:raises_%s" % type(e).__name__, {"when": when, "error": repr(e)[:200]})
+                            break
+                        if lh is not None and lh.id == n.id:
+                            hs.append(("section_link", lh))
+                        else:
+                            self.viol("Section.link:yields_other_entity", {"when": when, "linking": ln[0].name, "expected": n.id, "got": getattr(lh, "id", None)})
+                        break
             for label, h in hs:
                 ctx.count("parent_queries")
                 ctx.count("parent_via:" + label.split(":")[0])
@@ -349,6 +364,13 @@ class Case:
     def link_some(self, f):
         rng = self.rng
         secs = self.all_sec()
+        # sections linked to other sections (anywhere in the tree, also to an ancestor or a same-named one)
+        self.seclinks = getattr(self, "seclinks", {})
+        for n in secs:
+            if len(secs) > 1 and rng.random() < 0.3:
+                t = rng.choice([m for m in secs if m.id != n.id])
+                self.sec_handles(f, n)[0][1].link = self.sec_handles(f, t)[0][1]
+                self.seclinks[n.id] = t.id
         for kind, hd in self.holders(f):
             if secs and rng.random() < 0.45:
                 n = rng.choice(secs)
@@ -396,6 +418,7 @@ class Case:
                 (n.parent.children if n.parent else self.sroots).remove(n)
                 for key in [key for key, sid in self.md.items() if sid in dead]:
                     del self.md[key]
+                self.seclinks = {a: b for a, b in getattr(self, "seclinks", {}).items() if a not in dead and b not in dead}
             elif k == "delete_source":
                 b = rng.choice(list(f.blocks))
                 srcs = self.all_src(b.name)
